@@ -50,10 +50,10 @@ func (p *muxPeer) onWrite(b []byte) {
 		p.tr.Emit(Ev{"ev": "PeerSaw", "chan": ch, "typ": typ, "nr": nr, "n": hl - 8, "eom": st&1 == 1})
 		switch {
 		case typ == 8 && p.eager:
-			p.mc.Feed(mkPacket(11, 1, ch, 0, nil))
+			p.mc.Feed(mkPacket(11, 1, ch, (ch*37)%256, nil)) // the acknowledgement's own packet number is the peer's business
 			time.Sleep(3 * time.Millisecond)
 		case typ == 8: // TDS_BUF_SETUP: acknowledge with a header-only PROTACK packet
-			p.pending[ch] = append(p.pending[ch], mkPacket(11, 1, ch, 0, nil))
+			p.pending[ch] = append(p.pending[ch], mkPacket(11, 1, ch, (ch*37)%256, nil))
 		case typ == 9: // TDS_BUF_CLOSE
 		case st&1 == 1 && hl > 8: // a complete client message: answer it
 			for i := 0; i < p.replies; i++ {
